@@ -384,7 +384,22 @@ func execC13(x *Ctx, sc *wire.Scenario) *wire.Result {
 				fmt.Sprintf("[%s] the configuration is what results from consulting only the innermost $if/$else level: directives inside an inactive outer block took effect\nmode=%s term=%s app=%s\n%s\nfirst difference: %s", route, xx.Mode, xx.Term, xx.App, text, scratch.Msg))
 			return false
 		}
-		violation(res, scratch.Class, scratch.Oracle, scratch.Sig, scratch.Msg)
+		// not explained by a known defect: say how the result differs from each model
+		why := ""
+		if route != "parse" {
+			d := okResult(sc)
+			tb, tv := refEvalTwice(&xx, true)
+			compareTo(cfg, exact, route, tb, tv, d)
+			why += "\n  vs parsed-twice+innermost-level model: " + firstLines(d.Msg, 1)
+		}
+		d := okResult(sc)
+		compareTo(cfg, exact, route, bugB, bugV, d)
+		why += "\n  vs innermost-level model: " + firstLines(d.Msg, 1)
+		msg := scratch.Msg
+		if i := strings.Index(msg, "\n"); i >= 0 {
+			msg = msg[:i] + why + msg[i:]
+		}
+		violation(res, scratch.Class, scratch.Oracle, scratch.Sig, msg)
 		return false
 	}
 	compareTo = func(cfg *inputrc.Config, exact bool, route string, wantB map[string]map[string]refBind, wantV map[string]string, res *wire.Result) bool {
@@ -404,8 +419,9 @@ func execC13(x *Ctx, sc *wire.Scenario) *wire.Result {
 				typed := ConvertMeta(seq)
 				alts[km+"\x00"+typed] = append(alts[km+"\x00"+typed], refBind{b.Action, b.Macro})
 				if wb, ok := wantB[km][typed]; ok {
-					// prefer the alternative that is the wanted one
-					if prev, seen := got[km][typed]; seen && prev == wb {
+					// prefer the alternative that is the wanted one (a macro body is stored unescaped)
+					if prev, seen := got[km][typed]; seen && prev.macro == wb.macro &&
+						(prev.action == wb.action || (wb.macro && inputrc.Unescape(prev.action) == inputrc.Unescape(wb.action))) {
 						continue
 					}
 				}
@@ -560,6 +576,26 @@ func execC13(x *Ctx, sc *wire.Scenario) *wire.Result {
 					b := m[seq]
 					if ConvertMeta(seq) == string(l.Typed) {
 						if _, ok := wantB[km][string(l.Typed)]; !ok {
+							// a known defect explains it when its model binds this very sequence
+							for _, alt := range []struct {
+								twice, inner bool
+								name, what   string
+							}{
+								{true, false, "user-file-parsed-twice", "parsing the file twice, the first time as application \"go\" with no mode and no terminal: $else branches and `$if go` blocks of the first pass stay in effect"},
+								{false, true, "nested-if-evaluated-without-its-enclosing-level", "consulting only the innermost $if/$else level: directives inside an inactive outer block took effect"},
+								{true, true, "user-file-parsed-twice+nested-if-evaluated-without-its-enclosing-level", "parsing the file twice (first as application \"go\" with no mode and no terminal) and consulting only the innermost $if/$else level"},
+							} {
+								var tb map[string]map[string]refBind
+								if alt.twice {
+									tb, _ = refEvalTwice(&xx, alt.inner)
+								} else {
+									tb, _ = refEval(&xx, alt.inner)
+								}
+								if mb, ok := tb[km][string(l.Typed)]; ok && mb.macro == b.Macro && (mb.action == b.Action || (mb.macro && inputrc.Unescape(mb.action) == inputrc.Unescape(b.Action))) {
+									return violation(res, "MISMATCH", "C13.all-enclosing-conditions", alt.name+":"+xx.Route,
+										fmt.Sprintf("[%s] the configuration is what results from %s\nkeymap %s: sequence %q is bound to %q although no live directive binds it there\nmode=%s term=%s app=%s\n%s", xx.Route, alt.what, km, string(l.Typed), b.Action, xx.Mode, xx.Term, xx.App, full))
+								}
+							}
 							return violation(res, "MISMATCH", "C13.dead-directive-has-no-effect", "dead-bind-applied:"+xx.Route,
 								fmt.Sprintf("[%s] keymap %s: sequence %q is bound to %q although no live directive binds it there\nmode=%s term=%s app=%s\n%s", xx.Route, km, string(l.Typed), b.Action, xx.Mode, xx.Term, xx.App, full))
 						}
@@ -592,3 +628,11 @@ func sanitizeIncludes(prog []rcLine) []rcLine {
 }
 
 var _ = sort.Strings
+
+func firstLines(s string, n int) string {
+	ls := strings.SplitN(s, "\n", n+1)
+	if len(ls) > n {
+		ls = ls[:n]
+	}
+	return strings.Join(ls, "\n")
+}
